@@ -23,6 +23,12 @@ var guardTargets = []target{
 			"glow.CurrentTimeslot()":  {"now", bv(32)},
 			"report.PowerOutput":      {"p", bv(64)},
 		}},
+	{Name: "Gen.ListenUDP", Tags: "test", Pkg: "server", Func: "GCAServer.threadedListenUDP",
+		Leaves: map[string]leaf{"readBytes": {"n", bv(64)}}},
+	{Name: "Gen.ValidateMigration", Tags: "test", Pkg: "server", Func: "GCAServer.managedValidateMigration",
+		Leaves: map[string]leaf{"len(as.Location)": {"n", bv(64)}}},
+	{Name: "Gen.AuthServersPOST", Tags: "test", Pkg: "server", Func: "GCAServer.AuthorizedServersHandlerPOST",
+		Leaves: map[string]leaf{"len(server.Location)": {"n", bv(64)}, "s.gcaServers.servers[i].Banned": {"oldBanned", "Bool"}, "server.Banned": {"newBanned", "Bool"}}},
 	{Name: "Gen.Integrate", Tags: "test", Pkg: "server", Func: "GCAServer.integrateReport",
 		Leaves: map[string]leaf{
 			"report.Timeslot":                          {"ts", bv(32)},
